@@ -33,10 +33,51 @@ def selftest():
 
 def generate(rnd, tier):
     name, g = c01.gen_grammar(rnd)
+    amb = chance(rnd, 0.08)
+    if amb:
+        # an ambiguous grammar and a structure-sensitive constraint (match expressions): check/repair on a tree speak
+        # about THAT derivation, which need not be the one the parser finds first for its string
+        name, g = "amb", gen.ZOO["amb"]
     cg = rt.canon(g)
     md = rt.min_depths(cg)
     trees = [gen.tree(rnd, cg, "<start>", rnd.randint(1, 6), md, bias=0.8) for _ in range(5)]
     lits = fml.sample_lits(cg, trees)
+    if amb:
+        fg = fml.FGen(rnd, cg, lits, dict(numq=0.0, unused=0.0, mexpr=0.9, mexpr_depth=pick(rnd, [2, 3]), connectives=("and", "or", "not")))
+        big = [x for x in trees if rt.tyield(x).count("+") >= 2] or trees
+        t = pick(rnd, big)
+        # two derivations of one string (left- and right-nested sums) and, if one of a few candidates does, a constraint
+        # that tells them apart
+        ds = [pick(rnd, ["1", "2", "3"]) for _ in range(rnd.randint(3, 4))]
+
+        def leaf(d):
+            return ["<e>", [["<d>", [[d, []]]]]]
+
+        def plus(a, b):
+            return ["<e>", [a, ["+", []], b]]
+
+        L = leaf(ds[0])
+        for d in ds[1:]:
+            L = plus(L, leaf(d))
+        R = leaf(ds[-1])
+        for d in reversed(ds[:-1]):
+            R = plus(leaf(d), R)
+        L, R = ["<start>", [L]], ["<start>", [R]]
+        lits2 = fml.sample_lits(cg, [L, R])
+        fg2 = fml.FGen(rnd, cg, lits2, dict(numq=0.0, unused=0.0, mexpr=0.9, mexpr_depth=pick(rnd, [2, 3]), connectives=("and", "or", "not")))
+        for _ in range(12):
+            f2 = fg2.formula([("start", "<start>")], rnd.randint(1, 2))
+            try:
+                a, fa, _ = fml.sat(cg, L, f2)
+                b, fb, _ = fml.sat(cg, R, f2)
+            except fml.Undecided:
+                continue
+            if not fa and not fb and a != b:
+                t = pick(rnd, [L, R])
+                return {"grammar": g, "gname": name, "template": "amb_split", "formula": f2,
+                        "mode": "check_parse" if chance(rnd, 0.6) else "repair", "tree": t, "string": rt.tyield(t), "rseed": rnd.randint(0, 10 ** 6)}
+        return {"grammar": g, "gname": name, "template": "amb_fgen", "formula": fg.formula([("start", "<start>")], rnd.randint(1, 2)),
+                "mode": "check_parse" if chance(rnd, 0.7) else "repair", "tree": t, "string": rt.tyield(t), "rseed": rnd.randint(0, 10 ** 6)}
     if chance(rnd, 0.6):
         tname, f = solvergen.template(rnd, cg, lits, name)
     else:
@@ -137,6 +178,9 @@ def judge(case):
                 bad("parse:unfaithful_tree", detail=why or rt.tyield(isla_tree))
                 isla_tree = None
     own_tree = case["tree"] if case.get("tree") is not None and nder == 1 else None
+    if case.get("tree") is not None and nder > 1 and mode in ("repair", "mutate") and rt.tyield(case["tree"]) == s:
+        # repair/mutate are handed a TREE: for a string with several derivations they are judged on the derivation they get
+        own_tree = case["tree"]
     judged_tree = own_tree or isla_tree
     exp_sat = ref(judged_tree) if judged_tree is not None else None
     if member and exp_sat is None and not viol:
@@ -200,6 +244,19 @@ def judge(case):
             except Exception as e:
                 reraise_if_timeout(e)
                 bad("check(tree):raises:" + type(e).__name__, detail=str(e)[:200])
+        # for an input with several derivations check(tree) still speaks about the tree it is given: the harness' own
+        # derivation (not necessarily the parser's first one) against its own reference verdict
+        if member and nder > 1 and case.get("tree") is not None and rt.tyield(case["tree"]) == s:
+            own_sat = ref(case["tree"])
+            if own_sat is not None:
+                labels.append("check(tree):ambiguous_own_derivation")
+                try:
+                    got_t = do_check(rt.to_dt(rt.assign_ids(case["tree"])[0]))
+                    if got_t != "unknown" and got_t != bool(own_sat):
+                        bad("check(tree):wrong_for_given_derivation", expected=bool(own_sat), observed=got_t)
+                except Exception as e:
+                    reraise_if_timeout(e)
+                    bad("check(tree):raises:" + type(e).__name__, detail=str(e)[:200])
     elif mode in ("repair", "mutate") and member and judged_tree is not None and not viol:
         dt = rt.to_dt(rt.assign_ids(judged_tree)[0])
         pyrandom.seed(case["rseed"])
